@@ -38,8 +38,8 @@ impl<'a> SimdBestFirstVisitor<u32, SimdAabb> for PointVisitor<'a> {
 pub fn exec(func: &str, a: &mut Args) -> String {
     if func.starts_with("composite2_") { return comp2::exec(func, a); }
     if func.starts_with("composite_") { return comp::exec(func, a); }
-    if func.starts_with("lane3_") || func.starts_with("nl3_") { return lanes3::exec(func, a); }
-    if func.starts_with("lane2_") || func.starts_with("nl2_") { return lanes2::exec(func, a); }
+    if func.starts_with("lane3_") || func.starts_with("nl3_") || func.starts_with("dv3_") { return lanes3::exec(func, a); }
+    if func.starts_with("lane2_") || func.starts_with("nl2_") || func.starts_with("dv2_") { return lanes2::exec(func, a); }
     match func {
         "bf_point" => {
             let (q, cur, _) = c08::replay_cur(a, false);
@@ -77,6 +77,8 @@ pub fn gen(r: &mut Rng, thorough: bool) -> Vec<(String, String)> {
     v.extend(lanes3::gen(r, thorough));
     v.extend(lanes2::gen(r, thorough));
     v.extend(comp::gen_pairs(r, thorough));
+    v.extend(lanes3::gen_dv(r, thorough));
+    v.extend(lanes2::gen_dv(r, thorough));
     v
 }
 
@@ -764,7 +766,7 @@ pub mod comp2 {
 
     #[derive(Clone)]
     pub enum Sh2 { Ball(f64), Cuboid(Vector<Real>), Capsule(Point<Real>, Point<Real>, f64), Triangle(Point<Real>, Point<Real>, Point<Real>), Segment(Point<Real>, Point<Real>) }
-    fn sh(a: &mut Args) -> Sh2 {
+    pub fn sh(a: &mut Args) -> Sh2 {
         match a.tok() {
             "ball" => Sh2::Ball(a.f()),
             "cuboid" => Sh2::Cuboid(d2::v(a)),
@@ -774,7 +776,7 @@ pub mod comp2 {
             k => panic!("shape kind {}", k),
         }
     }
-    fn hsh(s: &Sh2) -> String {
+    pub fn hsh(s: &Sh2) -> String {
         match s {
             Sh2::Ball(r) => format!("ball {}", hx(*r)),
             Sh2::Cuboid(he) => format!("cuboid {}", d2::hv(he)),
@@ -783,7 +785,7 @@ pub mod comp2 {
             Sh2::Segment(p, q) => format!("segment {} {}", d2::hp(p), d2::hp(q)),
         }
     }
-    fn dynsh(s: &Sh2) -> Box<dyn Shape> {
+    pub fn dynsh(s: &Sh2) -> Box<dyn Shape> {
         match s {
             Sh2::Ball(r) => Box::new(Ball::new(*r)),
             Sh2::Cuboid(he) => Box::new(Cuboid::new(*he)),
@@ -1022,7 +1024,7 @@ pub mod comp2 {
         let sc = if lat { Vector::new(*r.pick(&[4.0, 8.0, 16.0]), *r.pick(&[1.0, 2.0])) } else { Vector::new(r.uniform(4.0, 20.0), r.uniform(0.5, 3.0)) };
         Co2::HeightField(hs, sc)
     }
-    fn gen_other(r: &mut Rng, lat: bool) -> Sh2 {
+    pub fn gen_other(r: &mut Rng, lat: bool) -> Sh2 {
         match r.below(6) {
             0 => Sh2::Ball(r.pos_extent(lat).min(3.0)),
             1 => Sh2::Cuboid(Vector::new(*r.pick(&[0.6, 1.5, 3.0, 6.0]), 0.6)),
@@ -1222,7 +1224,10 @@ pub mod lanes3 {
     use crate::util::*;
     use crate::p3::bounding_volume::{Aabb, SimdAabb};
     use crate::p3::math::{SimdBool, SimdReal};
-    use crate::p3::query::{NonlinearRigidMotion, Ray, SimdRay};
+    use crate::p3::query::{NonlinearRigidMotion, Ray, SimdRay, DefaultQueryDispatcher};
+    use crate::p3::query::details::CompositeShapeAgainstAnyDistanceVisitor;
+    use crate::p3::partitioning::{SimdBestFirstVisitStatus, SimdBestFirstVisitor};
+    use crate::p3::shape::{Ball, Compound, SharedShape};
     use crate::p3::simba::simd::SimdValue;
     use d3::{Isometry, Point, Real, Vector, na};
 
@@ -1248,8 +1253,39 @@ pub mod lanes3 {
                 let r = match k { 0 => m.append_translation(tra), 1 => m.prepend_translation(tra), 2 => m.append(iso), _ => m.prepend(iso) };
                 format!("{} {}", fiso(&r.start), d3::fp(&r.local_center)) }
             "nl3_pos" => { let m = motion(a); let t = a.f(); fiso(&m.position_at_time(t)) }
+            // the REAL CompositeShapeAgainstAnyDistanceVisitor (new + visit on an internal node: data = None)
+            "dv3_visit" => { let _aabb2 = aabb(a); let best = a.f(); let bv = simd(a); let pos12 = d3::iso(a); let s = super::super::c03::sh(a);
+                let g2 = super::super::c03::dynsh(&s);
+                let g1 = Compound::new(vec![(Isometry::identity(), SharedShape::new(Ball::new(0.5)))]);
+                let d = DefaultQueryDispatcher;
+                let mut vis = CompositeShapeAgainstAnyDistanceVisitor::new(&d, &pos12, &g1, &*g2);
+                match vis.visit(best, &bv, None) {
+                    SimdBestFirstVisitStatus::MaybeContinue { weights, mask, .. } =>
+                        format!("{} {}", (0..4).map(|i| ff(weights.extract(i))).collect::<Vec<_>>().join(" "), fmask(mask)),
+                    _ => "exit".into(),
+                } }
             _ => "nofn".into(),
         }
+    }
+    /// the lane part of the composite distance visitor: other shape with an off-centre box (triangles, segments, capsules built
+    /// from arbitrary points), arbitrary relative pose, lane boxes touching / overlapping / missing the other shape's box by
+    /// lattice amounts, `best` = MAX / the exact weight of a lane (tie: the mask is strict) / small / random
+    pub fn gen_dv(r: &mut Rng, thorough: bool) -> Vec<(String, String)> {
+        use crate::p3::bounding_volume::BoundingVolume;
+        let mut v = Vec::new();
+        let n = if thorough { 3000 } else { 400 };
+        for it in 0..n {
+            let lat = it % 2 == 0;
+            let s = super::super::c03::gen_shape(r, lat, &[0, 1, 3, 4, 4, 5, 5]);
+            let pos12 = if r.below(4) == 0 { Isometry::identity() } else if lat && r.bool() { Isometry::translation(*r.pick(&[-2.0, 0.5, 3.0]), *r.pick(&[0.0, 1.25]), *r.pick(&[-0.75, 2.0])) } else { d3::gen_iso(r, lat, 10.0) };
+            let g2 = super::super::c03::dynsh(&s);
+            let ab = g2.compute_aabb(&pos12);
+            let xs: Vec<Aabb> = (0..4).map(|_| match r.below(5) { 0 => gen_box(r, lat), 1 => near_box(r, lat, &ab).merged(&gen_box(r, lat)), _ => near_box(r, lat, &ab) }).collect();
+            let gap = |x: &Aabb| -> f64 { (0..3).map(|k| { let g = (x.mins[k] - ab.maxs[k]).max(ab.mins[k] - x.maxs[k]).max(0.0); g * g }).sum::<f64>().sqrt() };
+            let best = match r.below(5) { 0 => f64::MAX, 1 => gap(&xs[r.below(4) as usize]), 2 => *r.pick(&[0.0, 0.25, 0.5, 1.0]), 3 => gap(&xs[0]) + *r.pick(&[-0.25, 0.25]), _ => r.uniform(0.0, 5.0) };
+            v.push(("dv3_visit".into(), format!("{} {} {} {} {}", haabb(&ab), hx(best), xs.iter().map(haabb).collect::<Vec<_>>().join(" "), d3::hiso(&pos12), super::super::c03::hsh(&s))));
+        }
+        v
     }
 
     fn gen_box(r: &mut Rng, lat: bool) -> Aabb {
@@ -1313,7 +1349,10 @@ pub mod lanes2 {
     use crate::util::*;
     use crate::p2::bounding_volume::{Aabb, SimdAabb};
     use crate::p2::math::{SimdBool, SimdReal};
-    use crate::p2::query::{NonlinearRigidMotion, Ray, SimdRay};
+    use crate::p2::query::{NonlinearRigidMotion, Ray, SimdRay, DefaultQueryDispatcher};
+    use crate::p2::query::details::CompositeShapeAgainstAnyDistanceVisitor;
+    use crate::p2::partitioning::{SimdBestFirstVisitStatus, SimdBestFirstVisitor};
+    use crate::p2::shape::{Ball, Compound, SharedShape};
     use crate::p2::simba::simd::SimdValue;
     use d2::{Isometry, Point, Real, Vector, na};
 
@@ -1339,8 +1378,36 @@ pub mod lanes2 {
                 let r = match k { 0 => m.append_translation(tra), 1 => m.prepend_translation(tra), 2 => m.append(iso), _ => m.prepend(iso) };
                 format!("{} {}", fiso(&r.start), d2::fp(&r.local_center)) }
             "nl2_pos" => { let m = motion(a); let t = a.f(); fiso(&m.position_at_time(t)) }
+            "dv2_visit" => { let _aabb2 = aabb(a); let best = a.f(); let bv = simd(a); let pos12 = d2::iso(a); let s = super::comp2::sh(a);
+                let g2 = super::comp2::dynsh(&s);
+                let g1 = Compound::new(vec![(Isometry::identity(), SharedShape::new(Ball::new(0.5)))]);
+                let d = DefaultQueryDispatcher;
+                let mut vis = CompositeShapeAgainstAnyDistanceVisitor::new(&d, &pos12, &g1, &*g2);
+                match vis.visit(best, &bv, None) {
+                    SimdBestFirstVisitStatus::MaybeContinue { weights, mask, .. } =>
+                        format!("{} {}", (0..4).map(|i| ff(weights.extract(i))).collect::<Vec<_>>().join(" "), fmask(mask)),
+                    _ => "exit".into(),
+                } }
             _ => "nofn".into(),
         }
+    }
+    /// 2-D twin of `lanes3::gen_dv`
+    pub fn gen_dv(r: &mut Rng, thorough: bool) -> Vec<(String, String)> {
+        use crate::p2::bounding_volume::BoundingVolume;
+        let mut v = Vec::new();
+        let n = if thorough { 3000 } else { 400 };
+        for it in 0..n {
+            let lat = it % 2 == 0;
+            let s = if r.below(3) == 0 { let (p, q) = (d2::gen_p(r, lat, 2.0), d2::gen_p(r, lat, 2.0)); super::comp2::Sh2::Segment(p, q + Vector::new(0.25, 0.0)) } else { super::comp2::gen_other(r, lat) };
+            let pos12 = if r.below(4) == 0 { Isometry::identity() } else if lat && r.bool() { Isometry::translation(*r.pick(&[-2.0, 0.5, 3.0]), *r.pick(&[0.0, 1.25])) } else { d2::gen_iso(r, lat, 10.0) };
+            let g2 = super::comp2::dynsh(&s);
+            let ab = g2.compute_aabb(&pos12);
+            let xs: Vec<Aabb> = (0..4).map(|_| match r.below(5) { 0 => gen_box(r, lat), 1 => near_box(r, lat, &ab).merged(&gen_box(r, lat)), _ => near_box(r, lat, &ab) }).collect();
+            let gap = |x: &Aabb| -> f64 { (0..2).map(|k| { let g = (x.mins[k] - ab.maxs[k]).max(ab.mins[k] - x.maxs[k]).max(0.0); g * g }).sum::<f64>().sqrt() };
+            let best = match r.below(5) { 0 => f64::MAX, 1 => gap(&xs[r.below(4) as usize]), 2 => *r.pick(&[0.0, 0.25, 0.5, 1.0]), 3 => gap(&xs[0]) + *r.pick(&[-0.25, 0.25]), _ => r.uniform(0.0, 5.0) };
+            v.push(("dv2_visit".into(), format!("{} {} {} {} {}", haabb(&ab), hx(best), xs.iter().map(haabb).collect::<Vec<_>>().join(" "), d2::hiso(&pos12), super::comp2::hsh(&s))));
+        }
+        v
     }
 
     fn gen_box(r: &mut Rng, lat: bool) -> Aabb {
